@@ -116,6 +116,18 @@ P = {
         text="For 35 base-term kinds x {+,-,*,/} and chain lengths around the real switch threshold (399/400/401), 450, 900 and (sums, differences) 5000 / 20000, the left-deep accumulation and the balanced tree are observed through variable discovery, compute_degree, symbolic gradient value, evaluate, compile_expression, compile_gradient / compile_jacobian and solve, and compared with the reference algebra folded iteratively and with each other; every exception on a deep build is an event (RecursionError classified by stage, operator, build and length). All four thresholds are lowered to 2 on random grammar recipes. Known finding: derivative trees of left-deep product / quotient chains overflow the recursive evaluator.",
         ref="3/C15",
     ),
+    "C14": dict(
+        level="exploration",
+        technique="runtime monitoring: observations after colliding model prefixes (beyond LRU capacities) vs fresh-process twin; cache_info deltas as evidence",
+        text="(prefix, M) pairs: M is an expression with its compiled value / gradient / Jacobian / Hessian / degree, or an LP / convex NLP to solve; the prefix builds, compiles, differentiates and solves 1 to 1100 (5000 in thorough) models that collide with M (same variable names with other bounds, domains and positions, same parameter names with other values, structurally identical rebuilt expressions, bare-leaf expressions compiled against M's own variable list). M is observed after the prefix and in the order M, prefix, M again (rebuilt and the same objects) and compared with a twin started as a fresh interpreter for that M.",
+        ref="3/C14",
+    ),
+    "C20": dict(
+        level="fault_enumeration",
+        technique="runtime monitoring with fault injection: sys.monitoring PY_START failpoints inside solver callbacks and cache-construction calls, raising seam stubs at solver entry and in the retry; process-state and re-solve postconditions",
+        text="For 5 problems covering SLSQP, trust-constr (lazy Hessian), L-BFGS-B, auto/maximise and linprog, every callback kind (objective, gradient, Hessian, constraint fun/jac) and every cache-construction call is failed at entry index k (all k in thorough; 1, 2, K/2, K-1, K in quick) with 5 exception classes; also the solver entry after j evaluations, the SLSQP->trust-constr retry and raising bodies of increased_recursion_limit. After each fault the outcome must be FAILED-returned or propagated, warnings.showwarning / filters / recursion limit / np.geterr must be as before, and two unarmed re-solves must equal an undisturbed baseline.",
+        ref="3/C20",
+    ),
 }
 
 PENDING = "check under construction in this round (see DESIGN.md section 3 for the planned monitor)"
